@@ -306,6 +306,25 @@ def run(ctx: Context, rep) -> None:
                     guards.append(p)
                 elif isinstance(p, ast.If) and any(cur is s for s in p.orelse):
                     guards.append(None)
+                elif isinstance(p, (ast.For, ast.AsyncFor)) and any(
+                        cur is s for s in p.body):
+                    # a loop over a filtered stream: the filter conditions
+                    # guard the body (generator expression / comprehension
+                    # with `if`, filter(lambda ..: cond, src))
+                    from sa.valuation import single_defs
+                    it = p.iter
+                    if isinstance(it, ast.Name) and it.id in single_defs(f):
+                        it = single_defs(f)[it.id]
+                    if isinstance(it, (ast.GeneratorExp, ast.ListComp)):
+                        for gen in it.generators:
+                            for cond in gen.ifs:
+                                guards.append(ast.If(test=cond, body=[],
+                                                     orelse=[]))
+                    elif isinstance(it, ast.Call) and isinstance(
+                            it.func, ast.Name) and it.func.id == "filter" and \
+                            it.args and isinstance(it.args[0], ast.Lambda):
+                        guards.append(ast.If(test=it.args[0].body, body=[],
+                                             orelse=[]))
                 cur = p
             if f is we:
                 # an `elif` arm: the chain of tests decides
